@@ -22,7 +22,8 @@ RULE = ("three workloads. ops: seeded sequences (6-20 steps) of write / write_js
         "steps of seek(whence)/read(n)/read()/readinto/tell over objects of sizes {0,1,2,2^20-1,2^20,2^20+1} through "
         "open_seekable (buffered) and the raw range reader, compared with a local file, every Range header checked "
         "in-range. faults: one S3 operation with a transient burst within the budget (must be masked, <= 6 attempts, "
-        "virtual back-off), beyond it (must raise) or a permanent code (must surface at attempt 1). Distinct = hash of "
+        "virtual back-off), beyond it (must raise) or a permanent code (must surface at attempt 1); the burst starts at "
+        "the 1st-4th request of the operation and listings are paginated with page size 1/2/3/1000. Distinct = hash of "
         "the operation program; non-trivial = the program contains a listing or existence query after >= 2 writes, a "
         "seek past a buffer boundary, or a fired fault.")
 ASSUMPTIONS = common.BASE_ASSUMPTIONS + [
@@ -92,7 +93,8 @@ def gen(rng: random.Random, tier: str, idx: int) -> dict:
                              ("InternalError", 6), ("InternalError", 9), ("EndpointConnectionError", 4),
                              ("EndpointConnectionError", 8), ("AccessDenied", 1), ("NoSuchBucket", 1),
                              ("RequestTimeout", 2)])
-    return {"mode": mode, "op": op, "exc": exc, "burst": burst}
+    return {"mode": mode, "op": op, "exc": exc, "burst": burst, "page_size": rng.choice([1, 2, 3, 1000]),
+            "offset": rng.choice([0, 0, 1, 2, 3])}
 
 
 def shrink(plan: dict):
@@ -239,20 +241,27 @@ def execute(plan: dict, scratch: str, replay: Optional[dict] = None) -> dict:
                 nontrivial[0] = True
         else:
             s3.write_file("data/obj", _content(3000, 5))
+            for kx in range(5):
+                s3.write_file(f"data/k{kx}", b"x" * kx)
             s3.write_json("metadata/j", {"k": 1})
+            w.store.page_size = plan.get("page_size", 1000)
             op = plan["op"]
             expect = _fault_op(s3, op)          # fault-free answer
             t0 = sim.now
             n0 = w.store.requests
             a = sim.me()
             sim.faults.append(core.Fault({"kind": "error", "actor": "h", "exc": plan["exc"], "burst": plan["burst"],
-                                          "min_step": a.step + 1}))
+                                          "min_step": a.step + 1 + plan.get("offset", 0)}))
             got = _fault_op(s3, op)
             nreq = w.store.requests - n0
             fired = len(sim.fired_log)
             nontrivial[0] = fired > 0
             permanent = plan["exc"] in ("AccessDenied", "NoSuchBucket")
             burst = plan["burst"]
+            if fired == 0:
+                sim.probe("fault_not_reached")      # the operation issued fewer requests than the fault's offset
+                sim.faults.pop()
+                return
             if op == "write":
                 expect = "ok"
             if permanent:
